@@ -156,25 +156,251 @@ func genBulkSize(t *rapid.T, s *SessionSpec) int {
 	return sz
 }
 
-// countingConn wraps the connection handed to the session.
+// countingConn wraps the connection handed to the session: it counts Close calls and keeps the session's event
+// log - every Read / Write / Set*Deadline / Close call with the kind of its result, in order, together with the
+// harness-side events (handler invoked / failed, local Close called, OnExit started). The ending-event oracles are
+// decided on that log by cause, at the moment a forbidden call is issued (no clock involved):
+//   - the write side (loopSend) issues no further Write / SetWriteDeadline once one of them returned an error - a
+//     write error or timeout ends the session, it is not retried;
+//   - the read side (loopReceive) issues no further SetReadDeadline / Read and does not invoke the handler again once
+//     a Read or SetReadDeadline returned an error, or the handler returned an error or panicked;
+//   - OnExit starts only after a terminating event is in the log.
+// The first forbidden call is kept in the flags of the case; waits of the executors end as soon as one is there.
 type countingConn struct {
 	net.Conn
 	closes  atomic.Int32
 	failing bool // Close closes the connection but reports an error (as a TLS connection does after a peer reset)
+	wired   bool // the session really talks through this wrapper (false: a TCP session that got the real *net.TCPConn)
+	fl      *caseFlags
+	idx     int
+
+	mu      sync.Mutex
+	head    []string // the first events
+	tail    []string // the latest events
+	nEvents int
+	wFailed string // the failed call after which the write side must issue no further call
+	rFailed string // the same for the read side (incl. the handler's own failure)
+	cause   string // the first terminating event that happened
+}
+
+// caseFlags holds the first forbidden call seen in a case.
+type caseFlags struct {
+	mu    sync.Mutex
+	first *vkit.Failure
+	ch    chan struct{}
+}
+
+func newFlags() *caseFlags { return &caseFlags{ch: make(chan struct{})} }
+
+func (f *caseFlags) flag(site, format string, args ...any) {
+	f.mu.Lock()
+	defer f.mu.Unlock()
+	if f.first == nil {
+		f.first = &vkit.Failure{Site: site, Msg: fmt.Sprintf(format, args...)}
+		close(f.ch)
+	}
+}
+
+func (f *caseFlags) get() *vkit.Failure {
+	f.mu.Lock()
+	defer f.mu.Unlock()
+	return f.first
+}
+
+// failed turns the first forbidden call of the case, if any, into the verdict.
+func (f *caseFlags) failed(res *vkit.Result) *vkit.Result {
+	if v := f.get(); v != nil {
+		return res.Failf(v.Site, "%s", v.Msg)
+	}
+	return nil
+}
+
+func newConn(inner net.Conn, failing, wired bool, fl *caseFlags, idx int) *countingConn {
+	return &countingConn{Conn: inner, failing: failing, wired: wired, fl: fl, idx: idx}
+}
+
+func resKind(err error) string {
+	var ne net.Error
+	switch {
+	case err == nil:
+		return "ok"
+	case errors.As(err, &ne) && ne.Timeout():
+		return "timeout"
+	case err == io.EOF:
+		return "eof"
+	case errors.Is(err, net.ErrClosed) || errors.Is(err, io.ErrClosedPipe):
+		return "closed"
+	}
+	return "error"
+}
+
+func (c *countingConn) noteLocked(ev string) {
+	c.nEvents++
+	if len(c.head) < 24 {
+		c.head = append(c.head, ev)
+		return
+	}
+	if len(c.tail) >= 40 {
+		c.tail = append(c.tail[:0], c.tail[1:]...)
+	}
+	c.tail = append(c.tail, ev)
+}
+
+// history renders the event log (first and latest events).
+func (c *countingConn) history() string {
+	c.mu.Lock()
+	defer c.mu.Unlock()
+	return c.historyLocked()
+}
+
+func (c *countingConn) historyLocked() string {
+	s := strings.Join(c.head, ", ")
+	if skipped := c.nEvents - len(c.head) - len(c.tail); skipped > 0 {
+		s += fmt.Sprintf(", ... %d events ...", skipped)
+	}
+	if len(c.tail) > 0 {
+		s += ", " + strings.Join(c.tail, ", ")
+	}
+	return s
+}
+
+func (c *countingConn) causeLocked(what string) {
+	if c.cause == "" {
+		c.cause = what
+	}
+}
+
+// noteCause records a terminating event the harness itself issues (local Close called, an invalid item queued).
+func (c *countingConn) noteCause(what string) {
+	c.mu.Lock()
+	c.noteLocked(what)
+	c.causeLocked(what)
+	c.mu.Unlock()
+}
+
+// before a call of the read side (read=true) or the write side
+func (c *countingConn) enter(read bool, call string) {
+	c.mu.Lock()
+	defer c.mu.Unlock()
+	if read && c.rFailed != "" {
+		c.fl.flag("read-after-read-failure", "session %d: %s is issued on the connection after %s - that event ends the session, the read loop must not go on; event log: %s", c.idx, call, c.rFailed, c.historyLocked())
+	}
+	if !read && c.wFailed != "" {
+		c.fl.flag("write-after-write-error", "session %d: %s is issued on the connection after %s - a write error or timeout ends the session, it is not retried; event log: %s", c.idx, call, c.wFailed, c.historyLocked())
+	}
+}
+
+func (c *countingConn) leave(read bool, call string, n int, err error) {
+	c.mu.Lock()
+	defer c.mu.Unlock()
+	k := resKind(err)
+	if n >= 0 {
+		c.noteLocked(fmt.Sprintf("%s %s %d", call, k, n))
+	} else {
+		c.noteLocked(call + " " + k)
+	}
+	if err == nil {
+		return
+	}
+	what := fmt.Sprintf("%s returned %s (%v)", call, k, err)
+	if read && c.rFailed == "" {
+		c.rFailed = what
+	}
+	if !read && c.wFailed == "" {
+		c.wFailed = what
+	}
+	c.causeLocked(what)
+}
+
+func (c *countingConn) Read(b []byte) (int, error) {
+	c.enter(true, "Read")
+	n, err := c.Conn.Read(b)
+	c.leave(true, "Read", n, err)
+	return n, err
+}
+
+func (c *countingConn) Write(b []byte) (int, error) {
+	c.enter(false, "Write")
+	n, err := c.Conn.Write(b)
+	c.leave(false, "Write", n, err)
+	return n, err
+}
+
+func (c *countingConn) SetReadDeadline(t time.Time) error {
+	c.enter(true, "SetReadDeadline")
+	err := c.Conn.SetReadDeadline(t)
+	c.leave(true, "SetReadDeadline", -1, err)
+	return err
+}
+
+func (c *countingConn) SetWriteDeadline(t time.Time) error {
+	c.enter(false, "SetWriteDeadline")
+	err := c.Conn.SetWriteDeadline(t)
+	c.leave(false, "SetWriteDeadline", -1, err)
+	return err
+}
+
+func (c *countingConn) SetDeadline(t time.Time) error {
+	c.enter(true, "SetDeadline")
+	c.enter(false, "SetDeadline")
+	err := c.Conn.SetDeadline(t)
+	c.leave(true, "SetDeadline", -1, err)
+	if err != nil {
+		c.leave(false, "SetDeadline", -1, err)
+	}
+	return err
 }
 
 func (c *countingConn) Close() error {
 	c.closes.Add(1)
 	err := c.Conn.Close()
+	c.mu.Lock()
+	c.noteLocked("Close " + resKind(err))
+	c.mu.Unlock()
 	if c.failing {
 		return errors.New("close: broken pipe (injected)")
 	}
 	return err
 }
 
+// handlerInvoked: the read loop invoked the handler for the n-th time.
+func (c *countingConn) handlerInvoked(n int) {
+	c.mu.Lock()
+	defer c.mu.Unlock()
+	if c.rFailed != "" {
+		c.fl.flag("handler-invoked-after-failure", "session %d: the read handler is invoked again (invocation %d) after %s - that event ends the session; event log: %s", c.idx, n, c.rFailed, c.historyLocked())
+	}
+	c.noteLocked(fmt.Sprintf("handler#%d", n))
+}
+
+// handlerFails: the handler is about to return an error of its own / to panic.
+func (c *countingConn) handlerFails(how string) {
+	c.mu.Lock()
+	defer c.mu.Unlock()
+	c.noteLocked("handler " + how)
+	if c.rFailed == "" {
+		c.rFailed = "the read handler " + how
+	}
+	c.causeLocked("the read handler " + how)
+}
+
+// exitStarts: OnExit was called.
+func (c *countingConn) exitStarts() {
+	c.mu.Lock()
+	defer c.mu.Unlock()
+	if c.wired && c.cause == "" {
+		c.fl.flag("ended-without-cause", "session %d: OnExit is called although none of the terminating events has happened (no local Close, no failed Read or Write, no handler failure); event log: %s", c.idx, c.historyLocked())
+	}
+	c.noteLocked("OnExit")
+}
+
 type handler struct {
 	mu    sync.Mutex
 	state map[*stcp.Session]*sessRun
+	// only: the single session of the case (ending-cause part); a session created by SessionMgr.Do becomes known
+	// to the harness at the first invocation of the handler
+	only  *sessRun
+	known chan struct{}
 }
 
 type sessRun struct {
@@ -184,6 +410,7 @@ type sessRun struct {
 	conn         *countingConn
 	peer         net.Conn
 	exits        atomic.Int32
+	started      atomic.Bool  // Start has returned (both loop goroutines exist from here until OnExit has completed)
 	exitsViaMgr  atomic.Int32 // OnExit calls that arrived at the manager-wide handler
 	exitsViaOwn  atomic.Int32 // OnExit calls that arrived at the session's own handler
 	exited       chan struct{}
@@ -199,6 +426,13 @@ type sessRun struct {
 func (h *handler) get(s *stcp.Session) *sessRun {
 	h.mu.Lock()
 	defer h.mu.Unlock()
+	if h.only != nil {
+		if h.only.sess == nil {
+			h.only.sess = s
+			close(h.known)
+		}
+		return h.only
+	}
 	return h.state[s]
 }
 
@@ -208,7 +442,13 @@ func (h *handler) Read(s *stcp.Session) error {
 		return errors.New("unknown session")
 	}
 	n := int(r.invoked.Add(1))
+	r.conn.handlerInvoked(n)
 	if r.spec.FailAt > 0 && n == r.spec.FailAt {
+		if strings.HasPrefix(r.spec.FailKind, "panic") {
+			r.conn.handlerFails("panicked")
+		} else {
+			r.conn.handlerFails("returned an error of its own")
+		}
 		switch r.spec.FailKind {
 		case "panic":
 			panic(fmt.Sprintf("handler panic of session %d", r.idx))
@@ -233,6 +473,7 @@ func (h *handler) onExit(s *stcp.Session, own bool) {
 	if r == nil {
 		return
 	}
+	r.conn.exitStarts()
 	if own {
 		r.exitsViaOwn.Add(1)
 	} else {
@@ -347,7 +588,7 @@ func sessionGoroutines() []string {
 		// a goroutine that was created by Start but has not run yet shows only the
 		// compiler's wrapper (Start.func1.gowrapN), not the loop function
 		if strings.Contains(blk, "stcp.(*Session).loopSend") || strings.Contains(blk, "stcp.(*Session).loopReceive") || strings.Contains(blk, "stcp.(*Session).Start.func") ||
-			strings.Contains(blk, "c16stcp.echoHandler.RunEcho") || strings.Contains(blk, "stcp.(*Echo).Start.func") {
+			strings.Contains(blk, "c16stcp.echoHandler.RunEcho") || strings.Contains(blk, "c16stcp.(*echoSim).RunEcho") || strings.Contains(blk, "stcp.(*Echo).Start.func") {
 			out = append(out, blk)
 		}
 	}
@@ -385,6 +626,12 @@ func afterCase(res *vkit.Result) {
 // closeNoWait calls Close but does not wait for it for more than a moment (a Close that blocks is a finding of
 // the case, not a reason to hang the harness).
 func closeNoWait(s *stcp.Session) { closeBounded(s, 200*time.Millisecond) }
+
+// localClose is the local Close of a run as an event: noted in the event log before it is issued.
+func (r *sessRun) localClose(d time.Duration) {
+	r.conn.noteCause("local Close called")
+	closeBounded(r.sess, d)
+}
 
 // closeBounded is Close as an event of a case: the harness goes on after d even if the call has not returned
 // (the oracles then judge what became of the session).
@@ -456,9 +703,10 @@ func ExecSess(c CaseSess) *vkit.Result {
 	}
 	before := mgr.ConnCount()
 	var runs []*sessRun
+	fl := newFlags()
 	cleanup := func() {
 		for _, r := range runs {
-			closeNoWait(r.sess)
+			r.localClose(200 * time.Millisecond)
 			r.peer.Close()
 			r.conn.Conn.Close()
 		}
@@ -477,7 +725,7 @@ func ExecSess(c CaseSess) *vkit.Result {
 		if spec.CloseErr && c.Transport != "tcp" {
 			res.Class("close-returns-error")
 		}
-		r := &sessRun{spec: spec, idx: i, conn: &countingConn{Conn: srv, failing: spec.CloseErr}, peer: cli, exited: make(chan struct{}), peerDone: make(chan struct{}),
+		r := &sessRun{spec: spec, idx: i, conn: newConn(srv, spec.CloseErr, c.Transport != "tcp", fl, i), peer: cli, exited: make(chan struct{}), peerDone: make(chan struct{}),
 			ownErr: fmt.Errorf("handler error of session %d", i)}
 		if c.Transport == "tcp" {
 			// the session gets the real *net.TCPConn (code that type-asserts the connection must see it);
@@ -502,6 +750,9 @@ func ExecSess(c CaseSess) *vkit.Result {
 				continue
 			}
 			p := payload(r.idx, j, sz)
+			if sz == 0 {
+				r.conn.noteCause("an empty slice (invalid item) queued")
+			}
 			if err := r.sess.Send(p); err == nil {
 				r.accepted = append(r.accepted, p)
 			} else {
@@ -539,6 +790,7 @@ func ExecSess(c CaseSess) *vkit.Result {
 	}
 	for _, r := range runs {
 		r.sess.Start()
+		r.started.Store(true)
 		if r.spec.StartTwice {
 			r.sess.Start()
 			res.Class("start-called-twice")
@@ -575,7 +827,7 @@ func ExecSess(c CaseSess) *vkit.Result {
 			do := func() {
 				switch ev {
 				case "local-close":
-					closeBounded(r.sess, patience)
+					r.localClose(patience)
 				case "peer-close":
 					if !r.spec.PeerReads {
 						r.peer.Close()
@@ -651,7 +903,7 @@ func ExecSess(c CaseSess) *vkit.Result {
 	// terminating events: local Close plus peer close (which also unblocks a pipe write)
 	for _, r := range runs {
 		if e := classify(r); !e.guaranteed {
-			closeBounded(r.sess, patience)
+			r.localClose(patience)
 			r.peer.Close()
 			res.Class("ended-by-epilogue-close")
 		}
@@ -678,27 +930,12 @@ func ExecSess(c CaseSess) *vkit.Result {
 				res.Class("event:" + name)
 			}
 		}
-		select {
-		case <-r.exited:
-		case <-time.After(patience):
-			blocks := sessionGoroutines()
-			if len(blocks) == 0 {
-				return res.Failf("exit-callback-missing", "session %d (%+v): both session goroutines are gone but OnExit was never called", r.idx, r.spec)
-			}
-			if !timerFree(blocks) {
-				// some goroutine may still be woken by a deadline: wait until every deadline has fired
-				select {
-				case <-r.exited:
-					continue
-				case <-time.After(allTimersFired):
-				}
-				blocks = sessionGoroutines()
-				if len(blocks) == 0 {
-					return res.Failf("exit-callback-missing", "session %d (%+v): both session goroutines are gone but OnExit was never called", r.idx, r.spec)
-				}
-			}
-			return res.Failf("session-never-ends", "session %d (%+v): no OnExit although every deadline has fired; the session goroutines:\n%s", r.idx, r.spec, strings.Join(blocks, "\n\n"))
+		if f := awaitExit(res, fl, runs, r); f != nil {
+			return f
 		}
+	}
+	if f := fl.failed(res); f != nil {
+		return f
 	}
 	// both goroutines of every session stop
 	if !waitFor(func() bool { return len(sessionGoroutines()) == 0 }, patience) {
@@ -768,7 +1005,104 @@ func ExecSess(c CaseSess) *vkit.Result {
 	if len(runs) > 1 {
 		res.Class("several-sessions-on-one-manager")
 	}
+	if f := fl.failed(res); f != nil {
+		return f
+	}
 	return res
+}
+
+// loopsIntact takes a goroutine dump and checks the loop invariant (see awaitExit); nil = holds.
+func loopsIntact(res *vkit.Result, runs []*sessRun) *vkit.Result {
+	blocks := sessionGoroutines() // a consistent cut; the exit counters are read after it
+	alive := 0
+	var one *sessRun
+	for _, x := range runs {
+		if x.started.Load() && x.exits.Load() == 0 {
+			alive++
+			one = x
+		}
+	}
+	if len(blocks) < 2*alive {
+		return res.Failf("loop-left-without-exit", "%d started sessions have not run OnExit (one of them: session %d, %+v), but only %d goroutines are inside the session loops - a loop has returned without ending its session (exit callback, count, connection close); event log of that session: %s; the goroutines:\n%s",
+			alive, one.idx, one.spec, len(blocks), one.conn.history(), strings.Join(blocks, "\n\n"))
+	}
+	return nil
+}
+
+// waitIntact waits for done, at most limit; meanwhile a flagged forbidden call or a broken loop invariant ends the
+// wait with that verdict. ok=false: the limit passed.
+func waitIntact(res *vkit.Result, fl *caseFlags, runs []*sessRun, done <-chan struct{}, limit time.Duration) (fail *vkit.Result, ok bool) {
+	start := time.Now()
+	step := 2 * time.Millisecond
+	timer := time.NewTimer(step)
+	defer timer.Stop()
+	for {
+		select {
+		case <-done:
+			return nil, true
+		case <-fl.ch:
+			return fl.failed(res), false
+		case <-timer.C:
+		}
+		if f := loopsIntact(res, runs); f != nil {
+			return f, false
+		}
+		if time.Since(start) >= limit {
+			return nil, false
+		}
+		if step < 250*time.Millisecond {
+			step *= 2
+		}
+		timer.Reset(step)
+	}
+}
+
+// awaitExit waits for the exit callback of r. The wait ends at once when a forbidden call was flagged in the case.
+// While it waits it looks at the goroutine dump now and then (the clock only decides when to look): both loops of a
+// session call quit before they return, so as long as a started session's OnExit has not completed both its loop
+// goroutines exist - fewer loop goroutines than twice the number of such sessions means a loop has left without
+// ending the session (whatever ends it later is another event). After the bounded patience the verdict is taken
+// from the dump as before: parked where no timer can help, or every deadline has fired = the session never ends.
+func awaitExit(res *vkit.Result, fl *caseFlags, runs []*sessRun, r *sessRun) *vkit.Result {
+	start := time.Now()
+	step := 2 * time.Millisecond
+	timer := time.NewTimer(step)
+	defer timer.Stop()
+	for {
+		select {
+		case <-r.exited:
+			return nil
+		case <-fl.ch:
+			return fl.failed(res)
+		case <-timer.C:
+		}
+		if f := loopsIntact(res, runs); f != nil {
+			return f
+		}
+		select {
+		case <-r.exited:
+			return nil
+		default:
+		}
+		if el := time.Since(start); el >= patience {
+			blocks := sessionGoroutines()
+			// (the dump first, the exit channel after it: a session that ended meanwhile is not judged by this dump;
+			// goroutines that are gone without OnExit are the loop invariant's business at the next look)
+			select {
+			case <-r.exited:
+				return nil
+			default:
+			}
+			// some goroutine may still be woken by a deadline: then wait until every deadline has fired
+			if len(blocks) > 0 && (timerFree(blocks) || el >= patience+allTimersFired) {
+				return res.Failf("session-never-ends", "session %d (%+v): no OnExit although every deadline has fired; event log: %s; the session goroutines:\n%s", r.idx, r.spec, r.conn.history(), strings.Join(blocks, "\n\n"))
+			}
+		}
+		if step < 250*time.Millisecond {
+			step *= 2
+		}
+		timer.Reset(step)
+	}
 }
 
 // ---------------------------------------------------------------------------
@@ -784,19 +1118,64 @@ type CaseSrv struct {
 	// connection and gives the slot back with ReleaseRef) instead of a SessionMgr. Srvx: built through NewTCPSrvX.
 	Echo bool `json:"echo,omitempty"`
 	SrvX bool `json:"srvx,omitempty"`
+	// Before / After: further start options passed before and after WithMaxConn (none of them is about the maximum).
+	// MaxConn may be 0 or negative: then every connection is surplus.
+	Before []SrvOpt `json:"before,omitempty"`
+	After  []SrvOpt `json:"after,omitempty"`
+}
+
+// SrvOpt is a server start option other than WithMaxConn.
+type SrvOpt struct {
+	Kind string `json:"kind"` // acc-max-retry | acc-delay-us | acc-max-delay-ms | logger
+	Val  int    `json:"val"`
+}
+
+func genSrvOpts(t *rapid.T, label string) []SrvOpt {
+	var out []SrvOpt
+	for i, n := 0, rapid.SampledFrom([]int{0, 0, 1, 1, 2, 4}).Draw(t, label+"-n"); i < n; i++ {
+		o := SrvOpt{Kind: rapid.SampledFrom([]string{"acc-max-retry", "acc-max-retry", "acc-delay-us", "acc-max-delay-ms", "logger"}).Draw(t, label+"-kind")}
+		switch o.Kind {
+		case "acc-max-retry":
+			o.Val = rapid.SampledFrom([]int{1, 2, 3, 5, 8, 100, 1000}).Draw(t, label+"-retry")
+		case "acc-delay-us":
+			o.Val = rapid.SampledFrom([]int{1, 5, 1000}).Draw(t, label+"-delay")
+		case "acc-max-delay-ms":
+			o.Val = rapid.SampledFrom([]int{1, 200, 1000}).Draw(t, label+"-maxdelay")
+		}
+		out = append(out, o)
+	}
+	return out
+}
+
+func (o SrvOpt) option() (stcp.Option, bool) {
+	switch o.Kind {
+	case "acc-max-retry":
+		return stcp.WithAccMaxRetry(o.Val), o.Val >= 1 && o.Val <= 1<<20
+	case "acc-delay-us":
+		return stcp.WithAccDelay(time.Duration(o.Val) * time.Microsecond), o.Val >= 0 && o.Val <= 1e6
+	case "acc-max-delay-ms":
+		return stcp.WithAccMaxDelay(time.Duration(o.Val) * time.Millisecond), o.Val >= 0 && o.Val <= 1e4
+	case "logger":
+		return stcp.WithLogger(ulog.GetDefaultLogger()), true
+	}
+	return nil, false
 }
 
 func GenSrv(t *rapid.T) CaseSrv {
-	c := CaseSrv{MaxConn: rapid.IntRange(1, 4).Draw(t, "max")}
-	c.Dials = rapid.IntRange(1, 3*c.MaxConn).Draw(t, "dials")
+	c := CaseSrv{MaxConn: rapid.SampledFrom([]int{1, 2, 3, 4, 1, 2, 3, 4, 2, 3, 0, 0, -1}).Draw(t, "max")}
+	c.Dials = rapid.IntRange(1, max(3*c.MaxConn, 3)).Draw(t, "dials")
 	c.Concurrent = rapid.Bool().Draw(t, "concurrent")
-	c.Release = rapid.IntRange(0, c.MaxConn).Draw(t, "release")
+	c.Release = rapid.IntRange(0, max(c.MaxConn, 0)).Draw(t, "release")
 	c.Redials = rapid.IntRange(0, 3).Draw(t, "redials")
 	switch rapid.IntRange(0, 3).Draw(t, "mgr") {
 	case 0:
 		c.Echo = true
 	case 1:
 		c.SrvX = true
+	}
+	if rapid.IntRange(0, 2).Draw(t, "options") > 0 {
+		c.Before = genSrvOpts(t, "before")
+		c.After = genSrvOpts(t, "after")
 	}
 	return c
 }
@@ -890,7 +1269,7 @@ func watch(d *dialled) {
 
 func ExecSrv(c CaseSrv) *vkit.Result {
 	res := &vkit.Result{}
-	if c.MaxConn < 1 || c.MaxConn > 16 || c.Dials < 1 || c.Dials > 64 || c.Release < 0 || c.Redials < 0 || c.Redials > 16 {
+	if c.MaxConn < -16 || c.MaxConn > 16 || len(c.Before) > 8 || len(c.After) > 8 || c.Dials < 1 || c.Dials > 64 || c.Release < 0 || c.Redials < 0 || c.Redials > 16 {
 		res.Skip("malformed-config")
 		return res
 	}
@@ -926,7 +1305,42 @@ func ExecSrv(c CaseSrv) *vkit.Result {
 		srv = stcp.NewTCPSrv("127.0.0.1:0", mgr)
 	}
 	beforePorts := ownListenPorts()
-	errCh := srv.Start(stcp.WithMaxConn(int32(c.MaxConn)))
+	limit := max(c.MaxConn, 0) // a maximum of 0 or below: no session at all, every connection is surplus
+	if limit == 0 && os.Getenv("VERIF_RACE") != "" {
+		// Server.Start sets the listener on its own goroutine and Close reads it without synchronisation; with a
+		// session the count's atomic orders them, without any session nothing the race detector can see does
+		// (the order through the kernel - the server answered a dial - is invisible to it)
+		res.Skip("race-binary: no session orders Start and Close")
+		return res
+	}
+	var opts []stcp.Option
+	for _, o := range c.Before {
+		f, ok := o.option()
+		if !ok {
+			res.Skip("malformed-option")
+			return res
+		}
+		opts = append(opts, f)
+	}
+	opts = append(opts, stcp.WithMaxConn(int32(c.MaxConn)))
+	for _, o := range c.After {
+		f, ok := o.option()
+		if !ok {
+			res.Skip("malformed-option")
+			return res
+		}
+		opts = append(opts, f)
+	}
+	if len(opts) > 1 {
+		res.Class("further-start-options")
+		if len(c.After) > 0 {
+			res.Class("start-options-after-the-maximum")
+		}
+	}
+	if c.MaxConn <= 0 {
+		res.Class("maximum-zero-or-negative")
+	}
+	errCh := srv.Start(opts...)
 	addr := ""
 	if !waitFor(func() bool {
 		select {
@@ -948,7 +1362,13 @@ func ExecSrv(c CaseSrv) *vkit.Result {
 	if derr != nil {
 		vkit.Infra("cannot dial the server at %s: %v", addr, derr)
 	}
-	if !waitFor(func() bool { return mgr.ConnCount() == 1 }, patience) {
+	if limit == 0 {
+		// the probe only shows that the server answers (it is surplus itself); the dials below are judged
+		pd := &dialled{conn: probe}
+		watch(pd)
+		waitFor(func() bool { return pd.closedByServer.Load() || mgr.ConnCount() > 0 }, patience)
+		pd.clientClosed.Store(true)
+	} else if !waitFor(func() bool { return mgr.ConnCount() == 1 }, patience) {
 		vkit.Infra("probe connection to %s was not turned into a session within %v", addr, patience)
 	}
 	// the probe occupies a session until we close it; wait until it is gone again
@@ -1011,7 +1431,7 @@ func ExecSrv(c CaseSrv) *vkit.Result {
 			}
 			vkit.Infra("%s: neither accepted nor closed by the server within %v", what, patience)
 		}
-		if open < c.MaxConn {
+		if open < limit {
 			if d.closedByServer.Load() {
 				return res.Failf("refused-below-max", "%s: the server closed the connection although only %d of %d sessions were open", what, open, c.MaxConn)
 			}
@@ -1064,7 +1484,7 @@ func ExecSrv(c CaseSrv) *vkit.Result {
 			}
 			vkit.Infra("concurrent dials did not settle within %v: ConnCount %d, closed by the server %d, dialled %d", patience, mgr.ConnCount(), closed(), c.Dials)
 		}
-		open = min(c.Dials, c.MaxConn)
+		open = min(c.Dials, limit)
 		res.Class("concurrent-dials")
 	} else {
 		for i := 0; i < c.Dials; i++ {
@@ -1111,17 +1531,50 @@ func ExecSrv(c CaseSrv) *vkit.Result {
 	if got := int(mgr.ConnCount()); got != open {
 		return res.Failf("count-after-dials", "after releases and re-dials: ConnCount %d, want %d", got, open)
 	}
-	if m := int(maxSeen.Load()); m > c.MaxConn {
+	if m := int(maxSeen.Load()); m > limit {
 		return res.Failf("count-exceeds-max", "ConnCount was seen at %d, above the configured maximum %d", m, c.MaxConn)
 	}
 	// every connection the server took - kept or refused - is closed in the end: once all clients have closed and the
 	// server is shut, the process has as many socket descriptors as before the case
 	if fdBase >= 0 {
+		// all clients close at the same instant (parked goroutines released by one flag): the sessions that are
+		// still open end together; once their goroutines are gone every one of them has given its slot back
+		var goFlag atomic.Bool
+		var cwg sync.WaitGroup
+		var ready atomic.Int32
 		for _, d := range all {
+			d := d
 			d.clientClosed.Store(true)
-			d.conn.Close()
+			cwg.Add(1)
+			go func() {
+				defer cwg.Done()
+				ready.Add(1)
+				for !goFlag.Load() {
+					runtime.Gosched()
+				}
+				d.conn.Close()
+			}()
 		}
-		waitFor(func() bool { return mgr.ConnCount() == 0 && len(sessionGoroutines()) == 0 }, patience)
+		waitFor(func() bool { return int(ready.Load()) == len(all) }, patience)
+		goFlag.Store(true)
+		cwg.Wait()
+		if open >= 2 {
+			res.Class("open-sessions-end-at-the-same-instant")
+		}
+		if waitFor(func() bool { return len(sessionGoroutines()) == 0 }, patience) {
+			if first := mgr.ConnCount(); first != 0 {
+				// a lost decrement is permanent: the verdict is taken from a count that stays wrong while no session
+				// goroutine exists and the accept loop has nothing left to hand over
+				if os.Getenv("VERIF_C16_DEBUG") != "" {
+					fmt.Fprintf(os.Stderr, "C16-DEBUG: count %d with no session goroutine (case %+v)\n", first, c)
+				}
+				settled := waitFor(func() bool { return mgr.ConnCount() == 0 }, patience)
+				if got := mgr.ConnCount(); !settled && got != 0 && len(sessionGoroutines()) == 0 && acceptLoopIdle() {
+					return res.Failf("count-not-restored", "all %d clients closed at the same instant (%d sessions were open), every session goroutine is gone and the accept loop is idle, but ConnCount stays at %d", len(all), open, got)
+				}
+				res.Class("count-settled-late")
+			}
+		}
 		_ = srv.Close()
 		if !waitFor(func() bool { return socketFDs() <= fdBase }, patience) {
 			return res.Failf("surplus-not-closed/descriptor-leak", "%d dials against max %d, all clients closed, server closed: the process holds %d socket descriptors, %d before the case - connections the server took were never closed", c.Dials+c.Redials, c.MaxConn, socketFDs(), fdBase)
@@ -1132,7 +1585,7 @@ func ExecSrv(c CaseSrv) *vkit.Result {
 
 // ---------------------------------------------------------------------------
 
-var sessRule = "rapid: {net.Pipe | loopback TCP} x read/write timeouts {30 ms (an event), 20 s (never fires)} x 1-4 sessions on one manager, each with 0-8 queued sends (1..4096 bytes, occasionally an empty slice = invalid item), a peer that reads to the end or never reads and writes 0-5 bytes, a handler that fails (error or panic) at its 1st-3rd invocation or never, and the events local Close / peer close / both / twice, sequential or concurrent, plus late sends. Oracle per session: OnExit exactly once, wrapped connection closed, no goroutine left in loopSend/loopReceive, ConnCount restored, reading peer sees the end and only a prefix of the accepted bytes; if a local Close is the only terminating event the peer receives exactly the accepted bytes in order. Waiting is bounded; on expiry the verdict comes from the goroutine dump (parked where no timer can help = violation, otherwise inconclusive). Non-trivial: >= 2 terminating events or >= 1 queued send; distinct = distinct case JSON"
+var sessRule = "rapid: {net.Pipe | loopback TCP} x read/write timeouts {30 ms (an event), 20 s (never fires)} x 1-4 sessions on one manager, each with 0-8 queued sends (1..4096 bytes, occasionally an empty slice = invalid item), a peer that reads to the end or never reads and writes 0-5 bytes, a handler that fails (error or panic) at its 1st-3rd invocation or never, and the events local Close / peer close / both / twice, sequential or concurrent, plus late sends. Oracle per session: OnExit exactly once, wrapped connection closed, no goroutine left in loopSend/loopReceive, ConnCount restored, reading peer sees the end and only a prefix of the accepted bytes; if a local Close is the only terminating event the peer receives exactly the accepted bytes in order. Waiting is bounded; on expiry the verdict comes from the goroutine dump (parked where no timer can help = violation, otherwise inconclusive). By cause (call log of the net.Pipe wrapper, handler bookkeeping, goroutine dumps during the wait): no Write after a failed Write, no Read / handler invocation after a failed Read or a handler failure, no loop goroutine gone while OnExit has not run, OnExit only after a terminating event. Non-trivial: >= 2 terminating events or >= 1 queued send; distinct = distinct case JSON"
 
 var PartSess = &vkit.Part[CaseSess]{
 	Property: Property, Name: "sessions",
@@ -1150,8 +1603,15 @@ var PartSessRace = &vkit.Part[CaseSess]{
 
 var PartSrv = &vkit.Part[CaseSrv]{
 	Property: Property, Name: "server-accept-limit",
-	Rule:  "rapid: a real stcp.Server on 127.0.0.1 with maxConn 1-4, 1..3*maxConn dials (sequential: each settled before the next; or all at once), then up to 3 client-side closes each followed by a re-dial. Oracle: sequential dial i is kept iff fewer than maxConn sessions are open, otherwise the client sees the server close it; ConnCount == min(dials, maxConn) after settling, follows releases, and a continuously sampled ConnCount never exceeds maxConn. Non-trivial: more dials than maxConn; distinct = distinct case JSON",
+	Rule:  "rapid: a real stcp.Server on 127.0.0.1 with maxConn 1-4 (sometimes 0 or -1: every connection is surplus), WithMaxConn passed alone or among 0-4 other start options before and after it (WithAccMaxRetry / WithAccDelay / WithAccMaxDelay / WithLogger), 1..3*maxConn dials (sequential: each settled before the next; or all at once), then up to 3 client-side closes each followed by a re-dial. Oracle: sequential dial i is kept iff fewer than maxConn sessions are open, otherwise the client sees the server close it; ConnCount == min(dials, maxConn) after settling, follows releases, and a continuously sampled ConnCount never exceeds maxConn; at the end all clients close at the same instant and ConnCount is 0 once every session goroutine is gone. Non-trivial: more dials than maxConn; distinct = distinct case JSON",
 	Quick: 40, Thorough: 300,
+	Gen: GenSrv, Exec: ExecSrv,
+}
+
+var PartSrvRace = &vkit.Part[CaseSrv]{
+	Property: Property, Name: "race-server-accept-limit",
+	Rule:  PartSrv.Rule + " (binary built with -race)",
+	Quick: 10, Thorough: 60,
 	Gen: GenSrv, Exec: ExecSrv,
 }
 
